@@ -43,9 +43,27 @@ impl Clone for JValue {
     #[verifier::external_body]
     fn clone(&self) -> (r: Self) ensures r == *self { unimplemented!() }
 }
+impl JValue {
+    // real: `match self { JValue::Array(array) => Some(array), _ => None }` (as a slice)
+    pub fn as_array(&self) -> (r: Option<&JArray>)
+        ensures r == (match *self { JValue::Array(a) => Some(&a), _ => None::<&JArray> })
+    { match self { JValue::Array(array) => Some(array), _ => None } }
+}
+// `From<usize> for JValue` (from_integer!: `JValue::Number(n.into())`)
+pub uninterp spec fn jvalue_of_usize(n: usize) -> JValue;
+impl From<usize> for JValue {
+    #[verifier::external_body]
+    fn from(n: usize) -> (r: JValue) { unimplemented!() }
+}
+impl vstd::std_specs::convert::FromSpecImpl<usize> for JValue {
+    open spec fn obeys_from_spec() -> bool { true }
+    open spec fn from_spec(n: usize) -> JValue { jvalue_of_usize(n) }
+}
 pub uninterp spec fn arr_view(a: &JArray) -> Seq<JValue>;
 pub uninterp spec fn map_view(m: &JObject) -> Map<Seq<char>, JValue>;
 impl JArray {
+    #[verifier::external_body]
+    pub fn len(&self) -> (r: usize) ensures r == arr_view(self).len() { unimplemented!() }
     // <[JValue]>::get
     #[verifier::external_body]
     pub fn get(&self, i: usize) -> (r: Option<&JValue>)
@@ -66,7 +84,7 @@ impl JObject {
 //@ end
 //@ lift air/src/execution_step/lambda_applier/mod.rs :: type LambdaResult
 //@ end
-pub enum CatchableError { LambdaApplierError(LambdaError), VariableNotFound(String) }
+pub enum CatchableError { LambdaApplierError(LambdaError), VariableNotFound(String), LengthFunctorAppliedToNotArray(JValue) }
 pub enum ExecutionError { Catchable(Rc<CatchableError>), Uncatchable }
 pub type ExecutionResult<T> = Result<T, ExecutionError>;
 pub mod execution_step { pub use super::ExecutionError; pub use super::CatchableError; }
@@ -244,6 +262,9 @@ pub open spec fn nav(scalars: &Scalars, v: JValue, path: Seq<&ValueAccessor<'_>>
 // Signature rewrite: `lambda: impl Iterator<Item = &ValueAccessor>` is instantiated at `core::slice::Iter<ValueAccessor>`,
 // the type of the argument at all three call sites (`value_path.iter()` on a NonEmpty, `body.iter()` on a slice):
 // vstd's for-loop support needs the iterator laws of a concrete iterator type.
+// loop_isolation(false): the loop body must know that the ghost snapshot `value0` is the initial value of the
+// `mut value` parameter (a by-value `mut` parameter cannot be named with `old(..)` in an invariant).
+#[verifier::loop_isolation(false)]
 //@ lift air/src/execution_step/lambda_applier/applier.rs :: fn select_by_path_from_scalar
 //@ props C24
 //@ ret r
@@ -269,6 +290,21 @@ pub open spec fn nav(scalars: &Scalars, v: JValue, path: Seq<&ValueAccessor<'_>>
             nav(&exec_ctx.scalars, value0, it.seq()) == nav_from(&exec_ctx.scalars, *value, it.seq(), it.index()),
 //@ before "match accessor {"
         assert(it.seq()[it.index()] == accessor);
+//@ end
+
+
+//@ lift crates/air-lib/lambda/ast/src/ast.rs :: enum Functor
+//@ derive Clone Copy
+//@ end
+
+// `.length` on arrays only
+//@ lift air/src/execution_step/lambda_applier/applier.rs :: fn select_by_functor_from_scalar
+//@ props C24
+//@ ret r
+//@ spec
+    ensures
+        r is Ok <==> *value is Array,
+        r matches Ok(v) ==> (*value matches JValue::Array(a) && v == jvalue_of_usize(arr_view(&a).len() as usize)),
 //@ end
 
 } // verus!
